@@ -87,6 +87,9 @@ func leafAlphabet(k int) []Leaf {
 			{"multipleOf", J{"multipleOf": 2}}, {"enum", J{"enum": A{1, 4}}},
 		}
 	}
+	// unusual bound values (numbers only): a fraction that is not exactly representable, a negative fraction, a
+	// magnitude beyond 2^63
+	oddNum := []kwv{{"minimum0.1", J{"minimum": 0.1}}, {"maximum-273.15", J{"maximum": -273.15}}, {"maximum1e21", J{"maximum": 1e21}}, {"minimum0.1x", J{"minimum": 0.1, "exclusiveMinimum": true}}}
 	single := func(base J, kws []kwv, prefix string) {
 		for _, kw := range kws {
 			add(prefix+":"+kw.name, merge(base, kw.kv))
@@ -99,6 +102,8 @@ func leafAlphabet(k int) []Leaf {
 	single(J{"type": "integer", "format": "uint64"}, numKw(false)[1:4], "integer/uint64")
 	single(J{"type": "integer", "format": "int64"}, numKw(false)[6:10], "integer/int64")
 	single(J{"type": "number"}, numKw(true), "number")
+	single(J{"type": "number"}, oddNum, "number")
+	single(J{"type": "number", "format": "float"}, oddNum[:2], "number/float")
 	single(J{"type": "number", "format": "float"}, numKw(true)[2:7], "number/float")
 	add("boolean:enum", J{"type": "boolean", "enum": A{true}})
 	add("string/date:enum", J{"type": "string", "format": "date", "enum": A{"2020-01-02"}})
